@@ -21,7 +21,7 @@ IMIN, IMAX = -4371222, 2932896
 
 META = {
     "property": "C12",
-    "proof_modules": ["PyodaProofs.C12", "PyodaProofs.C12Hebrew", "PyodaProofs.C12Days"],
+    "proof_modules": ["PyodaProofs.C12", "PyodaProofs.C12Hebrew", "PyodaProofs.C12Days", "PyodaProofs.GenAgreeC12"],
     "drivers": ["drv_compare", "drv_calendar"],
     "theorems": [
         "Pyoda.C12.packed_order_iff_fields", "Pyoda.C12.unpack_pack", "Pyoda.C12.pack_injective",
@@ -61,8 +61,38 @@ META = {
         "Pyoda.C12.period_eq_iff_components", "Pyoda.C12.period_eq_equivalence", "Pyoda.C12.period_hash_congr",
         "Pyoda.C12.zoneInterval_eq_iff_components", "Pyoda.C12.zoneInterval_eq_equivalence", "Pyoda.C12.zoneInterval_hash_congr",
         "Pyoda.C12.fixedZone_eq_iff_components", "Pyoda.C12.fixedZone_eq_equivalence", "Pyoda.C12.fixedZone_hash_congr",
+        # agreement of the definitions generated from the Python source (tools/py2lean.py) with the model
+        "Pyoda.GenAgree.C12.gen_YMD_ctorRaw_eq", "Pyoda.GenAgree.C12.gen_YMD_ctorFields_eq",
+        "Pyoda.GenAgree.C12.gen_YMD_year_eq", "Pyoda.GenAgree.C12.gen_YMD_month_eq",
+        "Pyoda.GenAgree.C12.gen_YMD_day_eq", "Pyoda.GenAgree.C12.gen_YMDC_ctorYmd_eq",
+        "Pyoda.GenAgree.C12.gen_YMD_withCalendarOrdinal_eq", "Pyoda.GenAgree.C12.gen_YMD_compareTo_eq",
+        "Pyoda.GenAgree.C12.gen_YMD_compareToNone_eq", "Pyoda.GenAgree.C12.gen_YMD_beq_eq",
+        "Pyoda.GenAgree.C12.gen_YMD_bne_eq", "Pyoda.GenAgree.C12.gen_YMD_lt_eq", "Pyoda.GenAgree.C12.gen_YMD_le_eq",
+        "Pyoda.GenAgree.C12.gen_YMD_gt_eq", "Pyoda.GenAgree.C12.gen_YMD_ge_eq",
+        "Pyoda.GenAgree.C12.gen_YMD_equals_eq", "Pyoda.GenAgree.C12.gen_YMD_hash_eq",
+        "Pyoda.GenAgree.C12.gen_YMDC_ctorFields_eq", "Pyoda.GenAgree.C12.gen_YMDC_calendarOrdinal_eq",
+        "Pyoda.GenAgree.C12.gen_YMDC_month_eq", "Pyoda.GenAgree.C12.gen_YMDC_day_eq",
+        "Pyoda.GenAgree.C12.gen_YMDC_year_eq", "Pyoda.GenAgree.C12.gen_YMDC_toYearMonthDay_eq",
+        "Pyoda.GenAgree.C12.gen_YMDC_beq_eq", "Pyoda.GenAgree.C12.gen_YMDC_equals_eq",
+        "Pyoda.GenAgree.C12.gen_YMDC_hash_eq", "Pyoda.GenAgree.C12.gen_Calc_compare_eq",
+        "Pyoda.GenAgree.C12.gen_Offset_beq_eq", "Pyoda.GenAgree.C12.gen_Offset_bne_eq",
+        "Pyoda.GenAgree.C12.gen_Offset_compareTo_eq", "Pyoda.GenAgree.C12.gen_Offset_compareToNone_eq",
+        "Pyoda.GenAgree.C12.gen_Offset_lt_eq", "Pyoda.GenAgree.C12.gen_Offset_le_eq",
+        "Pyoda.GenAgree.C12.gen_Offset_gt_eq", "Pyoda.GenAgree.C12.gen_Offset_ge_eq",
+        "Pyoda.GenAgree.C12.gen_Offset_equals_eq", "Pyoda.GenAgree.C12.gen_Offset_hash_eq",
+        "Pyoda.GenAgree.C12.gen_LocalTime_beq_eq", "Pyoda.GenAgree.C12.gen_LocalTime_bne_eq",
+        "Pyoda.GenAgree.C12.gen_LocalTime_lt_eq", "Pyoda.GenAgree.C12.gen_LocalTime_le_eq",
+        "Pyoda.GenAgree.C12.gen_LocalTime_gt_eq", "Pyoda.GenAgree.C12.gen_LocalTime_ge_eq",
+        "Pyoda.GenAgree.C12.gen_LocalTime_compareTo_eq", "Pyoda.GenAgree.C12.gen_LocalTime_compareToNone_eq",
+        "Pyoda.GenAgree.C12.gen_LocalTime_hash_eq", "Pyoda.GenAgree.C12.gen_LocalDate_calendarOrdinal_eq",
+        "Pyoda.GenAgree.C12.gen_LocalDate_yearMonthDay_eq", "Pyoda.GenAgree.C12.gen_LocalDate_trustedCompareTo_eq",
+        "Pyoda.GenAgree.C12.gen_LocalDate_beq_eq", "Pyoda.GenAgree.C12.gen_LocalDate_bne_eq",
+        "Pyoda.GenAgree.C12.gen_LocalDate_lt_eq", "Pyoda.GenAgree.C12.gen_LocalDate_le_eq",
+        "Pyoda.GenAgree.C12.gen_LocalDate_gt_eq", "Pyoda.GenAgree.C12.gen_LocalDate_ge_eq",
+        "Pyoda.GenAgree.C12.gen_LocalDate_compareTo_eq", "Pyoda.GenAgree.C12.gen_LocalDate_compareToNone_eq",
     ],
     "trusted_base": [
+        "translator tie (tools/py2lean.py; GenAgreeC12): _YearMonthDay (both _ctor forms, _year/_month/_day, _with_calendar_ordinal, compare_to, == != < <= > >=, equals, __hash__), _YearMonthDayCalendar (both _ctor forms, _calendar_ordinal, _year/_month/_day, _to_year_month_day, ==, equals, __hash__), the default calculator's compare, Offset and LocalTime (== != < <= > >=, compare_to incl. None, equals, the __hash__ key), LocalDate (__calendar_ordinal, _year_month_day, __trusted_compare_to, == !=, < <= > >= and compare_to with the calendar guard) are re-translated from the source on every run and proved equal to the Compare model: the bit packing for ANY year and 5-bit month / 6-bit day / 6-bit ordinal fields. CalendarSystem._compare is an abstract callee of the LocalDate members (the theorems instantiate it by calCompare on the unpacked values); _calendar_ordinal goes through the _CalendarOrdinal enum (equal to the model for a field that names a calendar). Duration/Instant comparisons: GenAgreeC03. Outside the tie: the Hebrew calculator's compare, LocalDateTime, YearMonth, AnnualDate, Offset*/Interval/ZoneInterval equality (C11/C18/C05 ties cover their ==), max/min (builtins), the outer hash() of objects",
         "CPython: hash(int) is reduction modulo 2^61-1 with -1 mapped to -2; a __hash__ result outside the Py_ssize_t range is reduced the same way; x << k | y equals x*2^k + y for 0 <= y < 2^k; built-in min/max return the first argument unless the second is strictly smaller/greater",
         "hash(str) and hash(CalendarSystem) (object identity) are inputs of the modelled hash functions, not modelled",
         "the hypothesis wfCheck (Heb.cal true) = true of hebrewScriptural_cmp_iff_days / _lt_iff_days is discharged by EVALUATING the executable checker on the compiled calendar driver (op `cal.wf 5`, all 9999 years, in every run of this check and of C01; Lean compiler trusted for that step); WF c of the generic *_cmp_iff_days theorems is the hypothesis of property C01, established there for all 19 calendars",
